@@ -104,7 +104,7 @@ fn c04_b1_fill_buf_step<const LM: usize, const EXTRA: usize>() {
     }
     kani::cover!(r.abs_pos > abs0, "compaction happened");
     kani::cover!(out_len >= low_mark && r.inner.pos < src_len && !was_elr, "low mark reached with data remaining");
-    kani::cover!(out_len < low_mark && out_len > 0, "source exhausted below the low mark");
+    kani::cover!(LM == 1 || (out_len < low_mark && out_len > 0), "source exhausted below the low mark");
 }
 
 /// B1b consume(n) then fill_buf: exactly n bytes (capped at what is buffered) are skipped
@@ -113,6 +113,9 @@ fn c04_b1_consume_step<const LM: usize, const EXTRA: usize>() {
     let before = r.abs_pos + r.pos;
     let avail = r.cap - r.pos;
     let n: usize = kani::any();
+    // BufRead contract: amt <= bytes handed out by fill_buf; the implementation additionally caps an overshoot, which is
+    // exercised up to capacity + 8 (an amt near usize::MAX would overflow `pos + amt` - a contract violation of the caller)
+    kani::assume(n <= r.buf.len() + 8);
     r.consume(n);
     let after = r.abs_pos + r.pos;
     assert_eq!(after, before + if n < avail { n } else { avail });
